@@ -416,7 +416,7 @@ impl Engine for C17 {
         v
     }
 
-    fn classify_crash(&self, how: &str, tail: &str) -> Verdict {
+    fn classify_crash(&self, how: &str, tail: &str, _stage: &str) -> Verdict {
         Verdict::Violation {
             class: "crash".into(),
             msg: format!("interpreter died in read_line ({how}): {}", last_lines(tail, 4)),
